@@ -289,3 +289,36 @@ pub fn gen_weed_fasta(rng: &mut Rng, samples: &[Sample], k: usize) -> String {
     }
     out
 }
+
+/// paired FASTQ files (forward, reverse) sampled from `genome`: reads of `len` bases at the given
+/// coverage, either strand, a few substitution errors with low quality
+pub fn simulate_reads(rng: &mut Rng, genome: &[u8], coverage: usize, len: usize) -> (String, String) {
+    let len = len.min(genome.len());
+    let nreads = (coverage * genome.len() / len).max(4);
+    let (mut f, mut r) = (String::new(), String::new());
+    for i in 0..nreads {
+        let at = rng.below(genome.len() - len + 1);
+        let mut seq = genome[at..at + len].to_vec();
+        if rng.chance(50) {
+            seq = revcomp(&seq);
+        }
+        let mut qual = vec![b'I'; len];
+        for j in 0..len {
+            if seq[j] == b'N' {
+                qual[j] = b'#';
+            } else if rng.next_u64() % 200 == 0 {
+                seq[j] = other_base(rng, seq[j]);
+                qual[j] = *rng.pick(&[b'#', b'+', b'5', b'I']);
+            } else if rng.next_u64() % 40 == 0 {
+                qual[j] = *rng.pick(&[b'5', b'+', b'?']);
+            }
+        }
+        let rec = format!("@read{i}\n{}\n+\n{}\n", String::from_utf8_lossy(&seq), String::from_utf8_lossy(&qual));
+        if i % 2 == 0 {
+            f.push_str(&rec)
+        } else {
+            r.push_str(&rec)
+        }
+    }
+    (f, r)
+}
